@@ -8,6 +8,7 @@ CONSTANTS
   BugC = "flush_first_only"
   FixC = "none"
   RemoveC = FALSE
+  GenC = FALSE
 VIEW View
 INVARIANT TypeOK
 INVARIANT NoStuck
